@@ -22,6 +22,33 @@ claims = {
  'C09': dict(level='proof', design='5.9',
    text="Callee protocol contracts: callReady (arity and result-count errors, trimming), call (variadic packing: length, declared element type, order), the activation closure built by mkFunc (arguments typed in place and in order, zeroed slots, backtrace push/pop, results spliced, frame restored), newFunc, FUNC/CALL/CALLVARIADIC/FASTCALL/FASTCALLATTR cases, joinParams/splitParams round trip. newMethod and the NewFunc adapters are not yet under contract.",
    technique=TECH),
+ 'C05': dict(level='proof', design='5.5',
+   text="Table obligations over the REAL symbol table (getSymbol's composite literal evaluated by the engine for every token): binary operators fall into Go's five levels in Go's order, every level is left-associative (led recursion binds with its own lbp), unary nud binding power exceeds every binary lbp and is below every postfix lbp; contracts on ledInfix / negateNud / complementNud / notNud / doExpression tie the table to the Pratt loop (the loop continues exactly while the next token's lbp exceeds the caller's rbp). Not covered: that evaluation of the resulting tree computes Go's value (C04/C07 slices).",
+   technique=TECH),
+ 'C06': dict(level='proof', design='5.6',
+   text="Case contracts on the control-flow cases of (*compiler).compile (if, &&, for, range, switch, return, lambda) proved from the real case bodies: jump spans are computed from the lengths of the emitted blocks, placeholder BREAK/CONTINUE are rewritten to jumps only inside the loop/switch block being closed, nested blocks already closed are left alone; VM-side JUMP/JUMPFALSE/JUMPTRUE/RETURN cases are in the C07 ISA contracts. Layout clauses for if-else placement and the tail-call return form were intractable for the solvers (60-180 KB queries) and are NOT claimed; see DESIGN.md 9.",
+   technique=TECH),
+ 'C08': dict(level='proof', design='5.8',
+   text="Contracts on the scope machinery (lookup.Read/Write/Assign/Index/Shadow/Drop/shadow/unshadow; compiler Begin/Shadow/End) against a ghost chain-of-bindings view: a declaration inside a block shadows, End restores exactly the outer binding (including a binding that was itself shadowing), slots are never shared between live names. Compile cases that open blocks (if, for, range, switch, lambda) are proved to pair Begin/End on every exit path.",
+   technique=TECH),
+ 'C10': dict(level='proof', design='5.10',
+   text="Abstract-view contracts on numericMap and stringMap (Len, Get, Set, Delete, Range and their yield closures): view = finite map from key to value over the live entries; Set/Delete/Get stated over the whole view (other keys unchanged), Len = cardinality, Range visits live keys once. Two obligations (W2 of Set: a key deleted and re-inserted during a range can be visited twice) are genuine defects recorded as known findings. intMap/Value-keyed maps go through the same two implementations via the proved key-normalisation lemma intKey.",
+   technique=TECH),
+ 'C11': dict(level='proof', design='5.11',
+   text="Contracts on sliceT (Len, Get, Set, Slice, Append, Delete, Copy, Range closure) and NewSlice/newSlice over the engine's slice model (array identity, offset, len, cap): sub-slices share the array, append in capacity writes in place and beyond capacity allocates a fresh array leaving the old one untouched, bounds errors exactly when Go panics, element typing via assign. The items-layout clause of Append for multi-append paths was intractable and is not claimed.",
+   technique=TECH),
+ 'C13': dict(level='proof', design='5.13',
+   text="Contracts on stringT (Len, Get, Slice, Set refusal, Append, Delete) over the uninterpreted string theory with byte-length axioms, token.Char for character literals, and convert[TypeString]. Three genuine defects were repaired (fix: commits for D15, D16, D17). Rune decoding inside range-over-string is outside the engine's string model (trusted: Go's own range over string).",
+   technique=TECH),
+ 'C14': dict(level='proof', design='5.14',
+   text="Termination and shape of rendering: every container SafeStr has a call-site obligation that it recurses only into elements whose type is itself not a container (so recursion depth is bounded by 2 and rendering terminates on self-containing values), vaSprint joins operands with exactly one space, Value.String cases delegate to fmt for scalars. Full-depth rendering of nested containers fails (known finding D18).",
+   technique=TECH),
+ 'C15': dict(level='proof', design='5.15',
+   text="Contracts on the loader (loadPackage, loadFile, rawLoadPackage, rawLoadFile, loadImports and its loops, checkConstraint) with a ghost 'loaded' set: a package is initialised at most once, imports before importer, _test.go and constraint-excluded files skipped, a cycle yields an error instead of silently dropping a package (D8 repaired). File-system functions are extern contracts (assumed).",
+   technique=TECH),
+ 'C16': dict(level='proof', design='5.16',
+   text="Table obligations extracted from the REAL priority map literal and sort call of treeSort (stable sort; type > method/function > 0; imports first; init last; every statement kind in the stable default class), plus call-site obligations that every tree handed to loadImports (from loadPackage, loadFile and for every dependency) has been through treeSort (ghost predicate hoisted), and symAtPos's contract. The sort.SliceStable library call itself and joinFiles are trusted (listed as assumptions); the behavioural consequence (all permutations run identically) rests on them and on C07/C08.",
+   technique=TECH + "; table obligations over the source literal"),
  'C17': dict(level='proof', design='5.17',
    text="Heap contracts for GLOBALFUNC (in-place copy into the existing funcT, every other function object untouched), GLOBALZERO (writes only when the variable is nil), GLOBALSET, lookup.Write/Assign. addMethod/newMethod (bound methods) not yet under contract.",
    technique=TECH),
